@@ -997,7 +997,7 @@ Proof.
     assert (Hin'' : In k'' (evict_order s)).
     { apply Hmem. unfold evictableb. now rewrite <- Hn. }
     destruct (in_firstn_or_skipn k'' n _ Hin'') as [H|H].
-    + apply memN_In in H. congruence.
+    + exfalso. apply memN_In in H. unfold key in *. rewrite Em in H. discriminate H.
     + exact (sorted_prefix_lt _ _ _ _ _ Hsorted Hin H).
 Qed.
 
@@ -1088,7 +1088,7 @@ Theorem scope_has bk fx c k sc :
   end.
 Proof. reflexivity. Qed.
 
-Lemma scope_list_in bk fx c sc k :
+Lemma scope_list_in (c : cstate) sc k :
   In k (scoped_keys (c_core c) sc) <->
   exists b, In (k, b) (k_blobs (c_core c)) /\ out_of_scope b sc = false.
 Proof.
@@ -1101,3 +1101,184 @@ Qed.
 Theorem scope_list bk fx c sc :
   snd (cstep bk fx c (ListK sc)) = OKeys (scoped_keys (c_core c) sc).
 Proof. reflexivity. Qed.
+
+(* ================================================================ metadata *)
+Lemma assoc_filter_fst {A} (p : N -> bool) s (l : list (N * A)) :
+  assoc s (filter (fun m => p (fst m)) l) = if p s then assoc s l else None.
+Proof.
+  induction l as [|[s0 v] t IH]; cbn; [now destruct (p s)|].
+  destruct (p s0) eqn:E0; cbn; destruct (N.eqb_spec s0 s); subst; rewrite ?IH, ?E0; auto;
+    try (destruct (p s); auto).
+Qed.
+
+(* blobs of kc' are blobs of kc, unchanged *)
+Definition sub_blobs (kc kc' : core) : Prop :=
+  forall k b', assoc k (k_blobs kc') = Some b' -> assoc k (k_blobs kc) = Some b'.
+
+Lemma sub_blobs_refl kc : sub_blobs kc kc.
+Proof. now intros k b'. Qed.
+Lemma sub_blobs_trans a b c : sub_blobs a b -> sub_blobs b c -> sub_blobs a c.
+Proof. intros H1 H2 k b' H. auto. Qed.
+Lemma sub_blobs_drop k kc : sub_blobs kc (drop_blob k kc).
+Proof.
+  intros k' b' H. destruct (assoc k (k_blobs kc)) as [b|] eqn:E.
+  - rewrite (drop_blob_blobs _ _ _ E) in H. destruct (N.eq_dec k' k) as [->|Hne].
+    + rewrite assoc_remove_eq in H. discriminate.
+    + now rewrite assoc_remove_neq in H.
+  - now rewrite (drop_blob_absent _ _ E) in H.
+Qed.
+
+Lemma c_evict_sub fx space : forall q kc size,
+  sub_blobs kc (fst (fst (fst (c_evict fx q kc size space)))).
+Proof.
+  induction q as [|k t IH]; intros kc size; cbn [c_evict].
+  - destruct (c_fits fx (k_cap kc) size space); apply sub_blobs_refl.
+  - destruct (c_fits fx (k_cap kc) size space); [apply sub_blobs_refl|].
+    eapply sub_blobs_trans; [apply sub_blobs_drop|apply IH].
+Qed.
+
+Lemma c_clean_loop_sub target : forall keys c, sub_blobs (c_core c) (c_core (c_clean_loop c target keys)).
+Proof.
+  induction keys as [|k t IH]; intros c; cbn [c_clean_loop]; [apply sub_blobs_refl|].
+  destruct (c_size c <=? target); [apply sub_blobs_refl|].
+  destruct (assoc k (k_blobs (c_core c))) eqn:E; [|apply IH].
+  eapply sub_blobs_trans; [|apply IH]. unfold c_delete. cbn [c_core]. apply sub_blobs_drop.
+Qed.
+
+(* the three ways blob k can come out of a step that does not write its metadata (k, s) *)
+Definition md_kept (kc kc' : core) (k : key) (s : N) (b : blob) : Prop :=
+  assoc k (k_blobs kc') = None \/
+  exists b', assoc k (k_blobs kc') = Some b' /\ b_cell b' = b_cell b /\ assoc s (b_mds b') = assoc s (b_mds b).
+
+Lemma md_kept_same_blobs kc kc' k s b :
+  k_blobs kc' = k_blobs kc -> assoc k (k_blobs kc) = Some b -> md_kept kc kc' k s b.
+Proof. intros E H. right. exists b. rewrite E. auto. Qed.
+
+Lemma md_kept_sub kc kc' k s b :
+  sub_blobs kc kc' -> assoc k (k_blobs kc) = Some b -> md_kept kc kc' k s b.
+Proof.
+  intros Hs H. destruct (assoc k (k_blobs kc')) as [b'|] eqn:E; [|now left].
+  right. exists b'. pose proof (Hs _ _ E) as E2. rewrite E2 in H. inversion H. subst. auto.
+Qed.
+
+Lemma md_kept_upd kc k0 f k s b :
+  assoc k (k_blobs kc) = Some b ->
+  (k0 = k -> b_cell (f b) = b_cell b /\ assoc s (b_mds (f b)) = assoc s (b_mds b)) ->
+  md_kept kc (upd_blob k0 f kc) k s b.
+Proof.
+  intros H Hf. right. rewrite upd_blob_blobs. destruct (N.eq_dec k k0) as [->|Hne].
+  - exists (f b). rewrite assoc_update_eq, H. cbn. destruct (Hf eq_refl). auto.
+  - exists b. rewrite assoc_update_neq by auto. auto.
+Qed.
+
+Lemma md_kept_blobs_eq kc kc1 kc2 k s b :
+  k_blobs kc2 = k_blobs kc1 -> md_kept kc kc1 k s b -> md_kept kc kc2 k s b.
+Proof. intros E [H|[b' H]]; [left|right; exists b']; now rewrite E. Qed.
+
+Lemma md_kept_add kc kc1 k0 sz d k s b :
+  assoc k (k_blobs kc) = Some b -> assoc k0 (k_blobs kc) = None -> sub_blobs kc kc1 ->
+  md_kept kc (add_blob k0 sz d kc1) k s b.
+Proof.
+  intros H H0 Hs. assert (Hne : k0 <> k) by congruence.
+  destruct (md_kept_sub _ _ _ s _ Hs H) as [E|[b' [E1 E2]]].
+  - left. rewrite assoc_add_blob, E. destruct (N.eqb_spec k0 k); [contradiction|auto].
+  - right. exists b'. rewrite assoc_add_blob, E1. auto.
+Qed.
+
+Lemma open_write_at_blobs kc b off data : k_blobs (open_write_at kc b off data) = k_blobs kc.
+Proof. unfold open_write_at. destruct (cell_of kc (b_cell b)); auto. now destruct data. Qed.
+
+Theorem md_frame bk fx c o k s b :
+  md_writes o k s = false -> assoc k (k_blobs (c_core c)) = Some b ->
+  md_kept (c_core c) (c_core (fst (cstep bk fx c o))) k s b.
+Proof.
+  intros Hw Hb. destruct c as [kc size q]. cbn [c_core] in *. unfold cstep. cbn [c_core c_size c_queue].
+  destruct (plain_step bk kc o) as [[kc1 r]|] eqn:P.
+  { cbn [fst c_core]. unfold plain_step in P.
+    destruct o; cbn in Hw; plain_crush;
+      try (apply md_kept_same_blobs; [reflexivity|assumption]);
+      apply md_kept_upd; auto; intros ->; cbn; (split; [reflexivity|]);
+      rewrite N.eqb_refl in Hw; cbn in Hw; apply N.eqb_neq in Hw;
+      match goal with H : lookup _ _ _ = inl _ |- _ =>
+        apply lookup_inl in H; destruct H as [HH _]; rewrite Hb in HH; inversion HH; subst end.
+    - apply assoc_set_neq. congruence.
+    - apply assoc_remove_neq. congruence.
+    - apply assoc_set_neq. congruence. }
+  destruct o; cbn in P; try discriminate P; try (destruct bk; discriminate P); clear P; cbn in Hw.
+  - (* Create *) unfold c_create. cbn [c_core c_size c_queue].
+    destruct (negb (create_supported bk None)); [apply md_kept_same_blobs; auto|].
+    destruct (assoc k0 (k_blobs kc)) eqn:E0; [apply md_kept_same_blobs; auto|].
+    pose proof (c_evict_sub fx size0 q kc size) as Hs.
+    destruct (c_evict fx q kc size size0) as [[[kc1 size1] q1] []]; cbn [fst snd c_core] in *.
+    + eapply md_kept_blobs_eq; [|apply (md_kept_add kc kc1 k0 size0 [] k s b); auto]. reflexivity.
+    + apply md_kept_sub; auto.
+  - (* CreateW *) unfold c_create. cbn [c_core c_size c_queue].
+    destruct (negb (create_supported bk (Some data))); [apply md_kept_same_blobs; auto|].
+    destruct (assoc k0 (k_blobs kc)) eqn:E0; [apply md_kept_same_blobs; auto|].
+    pose proof (c_evict_sub fx size0 q kc size) as Hs.
+    destruct (c_evict fx q kc size size0) as [[[kc1 size1] q1] []]; cbn [fst snd c_core] in *.
+    + apply md_kept_add; auto.
+    + apply md_kept_sub; auto.
+  - (* Open *) destruct bk; [apply md_kept_same_blobs; auto|].
+    destruct (lookup kc k0 sc); apply md_kept_same_blobs; auto.
+  - (* OpenRead *) destruct (lookup kc k0 sc); apply md_kept_same_blobs; auto.
+  - (* OpenWriteAt *) destruct (lookup kc k0 sc); apply md_kept_same_blobs; auto. apply open_write_at_blobs.
+  - (* MarkComplete *)
+    destruct (assoc k0 (k_blobs kc)) as [b0|] eqn:E0; [|apply md_kept_same_blobs; auto].
+    destruct (b_complete b0); [apply md_kept_same_blobs; auto|]. cbn [fst c_core].
+    apply md_kept_upd; auto. intros ->. rewrite N.eqb_refl in Hw. cbn in Hw. apply negb_false_iff in Hw.
+    cbn. split; auto. now rewrite assoc_filter_fst, Hw.
+  - (* Delete *) destruct (lookup kc k0 sc); [|apply md_kept_same_blobs; auto].
+    cbn [fst c_core c_delete]. apply md_kept_sub; auto. apply sub_blobs_drop.
+  - (* Ban *) destruct (lookup kc k0 sc) as [b0|]; [|apply md_kept_same_blobs; auto].
+    destruct (b_banned b0); [apply md_kept_same_blobs; auto|]. apply md_kept_upd; auto.
+  - (* Unban *) destruct (lookup kc k0 sc) as [b0|]; [|apply md_kept_same_blobs; auto].
+    destruct (negb (b_banned b0)); [apply md_kept_same_blobs; auto|]. apply md_kept_upd; auto.
+  - (* Clean *) destruct bk; [|apply md_kept_same_blobs; auto].
+    destruct ((pct <? 0) || (100 <=? pct))%Z; [apply md_kept_same_blobs; auto|].
+    pose proof (c_evict_sub fx (k_cap kc - clean_target (k_cap kc) pct) q kc size) as Hs.
+    destruct (c_evict fx q kc size (k_cap kc - clean_target (k_cap kc) pct)) as [[[kc1 size1] q1] []]; cbn [fst snd c_core] in *.
+    + apply md_kept_sub; auto.
+    + destruct (order_legal kc1 order); [|apply md_kept_same_blobs; auto]. cbn [fst].
+      apply md_kept_sub; auto. eapply sub_blobs_trans; [exact Hs|].
+      apply (c_clean_loop_sub _ _ (mkc kc1 size1 q1)).
+Qed.
+
+(* a metadata read returns the stored value; a successful write stores its value *)
+Theorem md_get bk fx c k sc s :
+  snd (cstep bk fx c (GetMd k sc s)) =
+  match lookup (c_core c) k sc with
+  | inr e => OErr e
+  | inl _ => match md_of (c_core c) k s with Some v => OBytes v | None => ONone end
+  end.
+Proof.
+  unfold cstep. cbn [plain_step snd]. unfold md_of, lookup.
+  destruct (assoc k (k_blobs (c_core c))) as [b|]; auto. now destruct (out_of_scope b sc).
+Qed.
+
+Theorem md_set bk fx c k sc s v :
+  snd (cstep bk fx c (SetMd k sc s v)) = OOk ->
+  let c' := fst (cstep bk fx c (SetMd k sc s v)) in
+  md_of (c_core c') k s = Some v /\ snd (cstep bk fx c' (GetMd k sc s)) = OBytes v.
+Proof.
+  intros H c'. assert (Hmd : md_of (c_core c') k s = Some v /\ exists b', lookup (c_core c') k sc = inl b').
+  { subst c'. revert H. unfold cstep. cbn [plain_step].
+    destruct (lookup (c_core c) k sc) as [b|e] eqn:L; cbn [fst snd c_core]; [|discriminate].
+    intros _. pose proof L as L'. apply lookup_inl in L'. destruct L' as [Hb Ho]. split.
+    - unfold md_of. rewrite upd_blob_blobs, assoc_update_eq, Hb. cbn. apply assoc_set_eq.
+    - unfold lookup. rewrite upd_blob_blobs, assoc_update_eq, Hb. cbn [option_map].
+      replace (out_of_scope (set_mds (set_key s v (b_mds b)) b) sc) with (out_of_scope b sc) by now destruct sc.
+      rewrite Ho. eauto. }
+  destruct Hmd as [Hmd [b' Hl]]. split; auto. now rewrite md_get, Hl, Hmd.
+Qed.
+
+(* completion removes exactly the immovable metadata *)
+Theorem md_complete bk fx c k b s :
+  assoc k (k_blobs (c_core c)) = Some b -> b_complete b = false ->
+  let c' := fst (cstep bk fx c (MarkComplete k)) in
+  snd (cstep bk fx c (MarkComplete k)) = OOk /\
+  md_of (c_core c') k s = if sfx_movable s then md_of (c_core c) k s else None.
+Proof.
+  intros Hb Hc. unfold cstep. cbn [plain_step]. rewrite Hb, Hc. cbn [fst snd c_core]. split; auto.
+  unfold md_of. rewrite upd_blob_blobs, assoc_update_eq, Hb. cbn. apply assoc_filter_fst.
+Qed.
